@@ -479,7 +479,11 @@ def model_view(o):
     outs, st, mode, buf, buf_tls = o
     replies, chals, events = [], [], []
     end = 0
-    for kind, raw, alltls, enc, rs, ch, evs, fin in outs:
+    for kind, raw, alltls, enc, rs, ch, evs, fin, xf in outs:
+        for e in evs:
+            # an accepted EHLO: its reply lists Server.extensions as they are then
+            if e[0] == 0 and e[2][0] == 0 and e[2][1] == K_EHLO and e[2][4] == (250,):
+                replies.append(('ehlo-extensions', enc, tuple(xf)))
         for c in rs:
             replies.append((enc, c))
         chals.extend(B(x) for x in ch)
@@ -489,17 +493,57 @@ def model_view(o):
     return replies, chals, tuple(events), end, st, outs
 
 
+BASE_EXTS = {b'8BITMIME', b'PIPELINING', b'ENHANCEDSTATUSCODES', b'SMTPUTF8'}
+
+
+def reply_units(data):
+    """every complete reply in `data`: (code, text of the first line, text of the last line,
+    first words of the continuation lines)"""
+    res = []
+    cur = None
+    for ln in data.split(b'\r\n'):
+        m = REPLY_LINE.match(ln)
+        if not m:
+            continue
+        if cur is None:
+            cur = [int(m.group(1)), m.group(3), m.group(3), set()]
+        else:
+            cur[2] = m.group(3)
+            cur[3].add(m.group(3).split(b' ')[0].upper())
+        if m.group(2) == b' ':
+            res.append(tuple(cur))
+            cur = None
+    return res
+
+
+def ext_flags(kw):
+    base = 1 if BASE_EXTS <= kw else (0 if not (BASE_EXTS & kw) else 2)
+    return (base, int(b'STARTTLS' in kw), int(b'AUTH' in kw))
+
+
+def is_hello(unit):
+    return unit[0] == 250 and unit[1].startswith(b'Hello ')
+
+
 def impl_view(r):
+    """reply codes with their channel; in front of the 250 of every accepted EHLO the extension
+    flags its reply lists (accepted EHLO/HELO callbacks and 'Hello' replies correspond in order)"""
     replies, chals = [], []
     bad = None
+    hellos = [ev[2][1] for ev in r['events'] if ev[0] == 0 and ev[2][0] == 0 and ev[2][1] in (K_EHLO, K_HELO) and ev[2][4] == (250,)]
+    hi = 0
     for chan, data, parsed in r['steps']:
         if parsed is None:
             bad = data
             continue
-        for code, text in parsed:
-            replies.append((chan, code))
-            if code == 334:
-                chals.append(text)
+        for u in reply_units(data):
+            if is_hello(u) and hi < len(hellos):
+                if hellos[hi] == K_EHLO:
+                    replies.append(('ehlo-extensions', chan, ext_flags(u[3])))
+                hi += 1
+            replies.append((chan, u[0]))
+            if u[0] == 334:
+                chals.append(u[2])
     return replies, chals, canon(tuple(r['events'])), r['end'], bad
 
 
@@ -553,7 +597,7 @@ def compare_server(ctx, case, r, mo):
         ctx.mismatch('final-state', case, impl_state_canon(r['state']), model_state_canon(m_state))
         ok = False
     # the model's own statement on this run (theorem C08_no_plaintext_after_tls, evaluated)
-    for kind, raw, alltls, enc, rs, ch, evs, fin in outs:
+    for kind, raw, alltls, enc, rs, ch, evs, fin, xf in outs:
         if enc and not alltls:
             ctx.mismatch('model-consumed-plaintext-while-encrypted', case, None, B(raw))
             ok = False
@@ -645,11 +689,39 @@ def oracle_server(ctx, case, r, twin=None):
         if ev[0] == 1 and not greeted:
             fail(ctx, 'c08:transaction-survives-starttls', case, 'AUTH handler called after the handshake before any new EHLO/HELO')
             break
-    # (3b) STARTTLS is not offered (nor accepted) on an encrypted session
-    for n, (chan, data, parsed) in enumerate(r['steps']):
-        if chan and re.search(br'^250[ -]STARTTLS\r$', data, re.M):
-            fail(ctx, 'c08:starttls-offered-after-handshake', case, 'EHLO reply received over TLS still lists STARTTLS: %r' % (data,))
+    # (3b) STARTTLS is not offered nor accepted on an encrypted session: EVERY reply received over
+    #      TLS is looked at; and MAIL/RCPT/DATA sent over TLS before a new EHLO/HELO get 503
+    base = 0 if case['imm'] else 1
+    greeted_tls = bool(case['imm'])
+    reported = set()
+    for i, act in enumerate(script):
+        j = base + i
+        if j >= len(r['steps']):
             break
+        chan, data, parsed = r['steps'][j]
+        if not chan:
+            continue
+        for u in reply_units(data):
+            if u[0] == 250 and b'STARTTLS' in u[3] and 'offered' not in reported:
+                reported.add('offered')
+                fail(ctx, 'c08:starttls-offered-after-handshake', case,
+                     'a reply received over TLS (to %r) still lists STARTTLS: %r' % (act[1] if len(act) > 1 else act, data))
+        if act[0] != 'send':
+            continue
+        words = [ln.split(None, 1)[0].upper() if ln.split() else b'' for ln in act[1].split(b'\r\n') if ln]
+        units = reply_units(data)
+        if len(words) == len(units):       # one reply per command line: pair them
+            for w, u in zip(words, units):
+                if w == b'STARTTLS' and u[0] == 220 and 'accepted' not in reported:
+                    reported.add('accepted')
+                    fail(ctx, 'c08:starttls-offered-after-handshake', case,
+                         'a STARTTLS command sent over TLS was answered %d %r: STARTTLS is still accepted after the handshake' % (u[0], u[2]))
+                if w in (b'MAIL', b'RCPT', b'DATA') and not greeted_tls and not case['imm'] and u[0] < 400 and 'tx' not in reported:
+                    reported.add('tx')
+                    fail(ctx, 'c08:transaction-survives-starttls', case,
+                         '%s sent over TLS before any new EHLO/HELO was accepted with %d %r (a well-formed one must get 503, a malformed one 5xx)' % (w.decode(), u[0], u[2]))
+                if w in (b'EHLO', b'HELO') and u[0] == 250:
+                    greeted_tls = True
     # (4) SmtpSession view of the client's identity at the first callback after the handshake
     for name, ehlo_as in r['stale']:
         if ehlo_as is not None and not case['imm']:
@@ -1094,6 +1166,40 @@ def random_case(rng, n):
                 auth=rng.choice([2, 2, 1, 0]), script=script, verdicts=verdicts, name='random/%d' % n)
 
 
+GRAPH_ATOMS = [
+    ('E', b'EHLO p.example\r\n'), ('H', b'HELO p.example\r\n'), ('M', b'MAIL FROM:<s@x.example>\r\n'),
+    ('R', b'RCPT TO:<r@x.example>\r\n'), ('S', b'RSET\r\n'),
+]
+GRAPH_FOLLOW = [
+    ('ehlo', [b'EHLO t.example\r\n']),
+    ('helo', [b'HELO t.example\r\n']),
+    ('ehlo-ehlo', [b'EHLO t.example\r\n', b'EHLO u.example\r\n']),
+    ('helo-ehlo', [b'HELO t.example\r\n', b'EHLO u.example\r\n']),
+    ('starttls', [b'STARTTLS\r\n']),
+    ('ehlo-starttls', [b'EHLO t.example\r\n', b'STARTTLS\r\n']),
+    ('helo-ehlo-starttls', [b'HELO t.example\r\n', b'EHLO u.example\r\n', b'STARTTLS\r\n']),
+    ('mail', [b'MAIL FROM:<s2@x.example>\r\n']),
+    ('rcpt', [b'RCPT TO:<r2@x.example>\r\n']),
+    ('data', [b'DATA\r\n']),
+    ('auth', [b'AUTH CRAM-MD5\r\n']),
+]
+
+
+def graph_cases():
+    """every session prefix of length 1..3 over {EHLO, HELO, MAIL, RCPT, RSET}, then STARTTLS (the
+    handshake is done whenever the server accepts it), then each follow-up over TLS (in clear text
+    when STARTTLS was refused)"""
+    cs = []
+    for n in (1, 2, 3):
+        for combo in itertools.product(GRAPH_ATOMS, repeat=n):
+            pname = ''.join(a for a, _ in combo)
+            for fname, flines in GRAPH_FOLLOW:
+                script = [('send', l) for _, l in combo] + [('send', b'STARTTLS\r\n'), ('tls',)] + [('send', l) for l in flines]
+                cs.append(dict(kind='server', context=1, imm=0, auth=2, script=script, verdicts=[],
+                               name='graph/%s/%s' % (pname, fname)))
+    return cs
+
+
 def misc_cases():
     cs = []
     # handshake that fails (the client talks plain text where the ClientHello should be)
@@ -1286,6 +1392,7 @@ def all_server_cases(ctx):
             for sh in (0, 21, 30):
                 cases.append(auth_case(ch, 'ehlo', sh, verdict=v))
     cases += misc_cases()
+    cases += graph_cases()
     for n in range(400 if ctx.quick else 8000):
         cases.append(random_case(ctx.rng, n))
     return cases
@@ -1311,7 +1418,7 @@ def metamorphic(ctx, results):
             key = 'c08:transaction-survives-starttls'
             what = 'the transaction opened before STARTTLS'
             rc = ref.get((g, 'ehlo'))
-        if rc is None or rc[0] is case:
+        if rc is None or rc[0] is case or r['hs'] != 1 or rc[1]['hs'] != 1:
             continue
         if tls_phase(r) != tls_phase(rc[1]):
             c = dict(case)
@@ -1437,6 +1544,7 @@ def replay(ctx, doc):
     finally:
         uninstall()
         restore()
+    known = {f['key'] for f in ctx.known if f.get('status') == 'known'}
     for f in ctx.failures:
-        print('FAIL %s: %s' % (f['key'], f['what']))
-    return 1 if ctx.failures else 0
+        print('%s %s: %s' % ('KNOWN-FINDING' if f['key'] in known else 'FAIL', f['key'], f['what']))
+    return 1 if any(f['key'] not in known for f in ctx.failures) else 0
